@@ -38,6 +38,7 @@ def judge(sh, ci, case, ref):
     for i, st in enumerate(steps):
         c = ci.configs[i]
         sh.evals += 1
+        sem.closure_check(sh, ci, i, st)
         probs = []
         if st["rc"] != 0:
             probs.append("rc_nonzero")
@@ -70,8 +71,9 @@ def _worker(args):
     cid = 0
     for gi, (name, g, strict) in enumerate(grams):
         ins = gen.inputs_for(rng, g, 5, 14, maxlen)
-        if len(ins) > n_inputs:
-            keep = ins[:1] + rng.sample(ins[1:], n_inputs - 1)
+        lim = n_inputs * 2 if getattr(g, "input_gen", None) is not None else n_inputs
+        if len(ins) > lim:
+            keep = ins[:1] + rng.sample(ins[1:], lim - 1)
         else:
             keep = ins
         refs[gi] = oracle.Ref(g)
@@ -115,10 +117,10 @@ def check(tier):
     ck = core.Check("C01", tier)
     if tier == "quick":
         shards, n_grammars, maxlen, n_inputs = 16, 30, 10, 22
-        variants = ["asan"] * 16
+        variants = ["asan"] * 14 + ["asan-small"] * 2
     else:
-        shards, n_grammars, maxlen, n_inputs = 64, 60, 14, 30
-        variants = ["asan"] * 48 + ["asan-small"] * 16
+        shards, n_grammars, maxlen, n_inputs = 96, 60, 14, 30
+        variants = ["asan"] * 72 + ["asan-small"] * 24
     jobs = [(ck.seed, i, n_grammars, maxlen, n_inputs, variants[i]) for i in range(shards)]
     res = core.pmap(_worker, jobs)
     sem.merge(ck, res)
